@@ -37,6 +37,17 @@ pub const NAME_POOL: &[&str] = &[
 ];
 pub const FILE_POOL: &[&str] = &["out.txt", "a", "b", "c", "list.out", "dir/f", "./a", "A", "a/", " b", "/dev/stdout", "-", "/dev/stderr", "stdout"];
 
+/// Ways people write numbers and quantities that are NOT plain decimal digits plus one documented unit
+/// letter: fractions, separators, exponents, radix prefixes, doubled signs, SI / IEC / word units, non-ASCII
+/// digits. `{}` stands for the digits. Every one of them is outside the argument languages (C05) and would
+/// be "carried as a different number" if accepted (C07), unless the reference says otherwise.
+pub const NOTATIONS: &[&str] = &[
+    "{}.5", "{}.0", "{}.", ".{}", "{},5", "{},000", "{}_000", "{} 000", "{}e3", "{}E3", "{}e0", "0x{}", "0X{}", "0o{}", "0b{}", "#x{}", "{}h0", "++{}", "--{}", "+-{}", "-+{}", "{}-", "{}+", "+ {}", "{}%", "{}/2", "{}*2", "({})",
+    "{}iB", "{}KiB", "{}MiB", "{}GiB", "{}TiB", "{}kiB", "{}KB", "{}kB", "{}MB", "{}GB", "{}TB", "{}Mb", "{}B", "{}K", "{}m", "{}g", "{}t", "{}P", "{}E", "{}kk", "{}Mi", "{}Ki", "{}bytes", "{}blocks",
+    "{}ms", "{}us", "{}sec", "{}secs", "{}min", "{}mins", "{}hr", "{}hrs", "{}hour", "{}day", "{}days", "{}w", "{}wk", "{}y", "{}yr", "{}M", "{}S", "{}D", "{}H", "{}dd", "{}d1", "{}d ", "{}s5",
+    "\u{661}\u{662}", "\u{ff11}\u{ff12}", "{}\u{b2}", "\u{bd}", "{}\u{a0}", "\u{2212}{}", "\u{ff0b}{}", "{}L", "{}u", "{}U", "{}ul", "{}f", "{}n", "0{}.", "1{}e", "{}'", "{}\u{2009}000", "inf", "max", "-0x1", "NaN", "∞",
+];
+
 /// Numbers with a meaning to people rather than to machines (decimal round numbers, unit sizes, well-known
 /// ids): a "common case" fast path is keyed on such values.
 pub const MAGIC: [u64; 24] = [10, 60, 99, 100, 255, 256, 365, 500, 512, 999, 1000, 1023, 1024, 3600, 4096, 65534, 65535, 65536, 86400, 100_000, 1_000_000, 1_048_576, 1_000_000_000, 1_073_741_824];
